@@ -222,7 +222,9 @@ def run(ck: Check) -> int:
                 kinds = sg.split(' ')[1].split(',') if sg.startswith('ok ') else []
                 model_same = mo.startswith('ok ') and set(mo.split(' ')[1]) == {'1'}
                 if model_same:
-                    if any(k[:1] in ('G', 'I') for k in kinds):   # a successfully parsed group (any kind) at a segment start
+                    # a successfully parsed group at a segment start; a negated group ALONE is fully guarded (C03_upper_faithful_sharp),
+                    # it leaks only through the token that follows it
+                    if any(k[:1] == 'G' or (k[:1] == 'I' and len(k) > 1 and k[1] != 'L') for k in kinds):
                         kid = 'KF-D5'
                     elif api == 'globmatch' and any(len(k) > 1 and k[0] == 'W' and k[1] != 'L' for k in kinds):
                         kid = 'KF-D4'
@@ -232,6 +234,55 @@ def run(ck: Check) -> int:
                                    'item_kinds': kinds, 'model_verdict_same': model_same}, False, True,
                                   'wcmatch/_wcparse.py: start-of-segment state (after_start) handling'), kid)
     ck.search('dot-free-all-strings', s_all)
+
+    # ---- `.` and `..` pieces under DOTGLOB: "even with DOTGLOB no wildcard construct matches a segment that is exactly `.` or `..`"
+    # (added after seeded change C03c: `match_dot_dir` leaked from one top-level group into the next).  Oracle: a globstar-free
+    # pattern consumes one piece per segment (theorem one_piece_per_segment), so piece i is matched by segment i; a segment with no
+    # written dot at all must not match `.` / `..`.
+    def s_dotdir(sr):
+        segs = ['*', '?', '??', '[!x]', '[!x][!x]', '!(x)', '@(.a|b)', '@(a|.b)', '!(.x)', '+(?)', 'a', '.a', '*(a)b', '@(*)', '!(x|y)', '?(a)?', '.', '..',
+                '@(.|a)', '!(a)b', '*a']
+        pcs = ['a', 'b', '.', '..', '.a', 'ab']
+        import itertools as _it
+        hits = []
+        n = 0
+        for _ in range(700 if quick and not ck.deep() else 10000):
+            k = R.randint(1, 3)
+            ss = [R.choice(segs) for _ in range(k)]
+            p = '/'.join(ss)
+            fl = G.E | G.U | G.D | (G.G if R.random() < 0.5 else 0) | (G.I if R.random() < 0.1 else 0)
+            cands = ['/'.join(t) for t in _it.product(pcs, repeat=k)]
+            try:
+                with common.time_limit(5):
+                    acc = G.globfilter(cands, p, flags=fl)
+            except common.CallTimeout:
+                continue
+            except Exception:   # noqa: BLE001
+                continue
+            n += 1
+            sr.evaluations += len(cands)
+            for q in acc:
+                pieces = q.split('/')
+                for i, pc in enumerate(pieces):
+                    if pc in ('.', '..') and '.' not in ss[i]:
+                        hits.append((p, fl, q, i, ss[i]))
+                        break
+        sr.distinct = n
+        sr.histogram['accepted ./.. by a dot-free segment'] = len(hits)
+        if hits and drv:
+            sig = drv.ask_many([f'segstarts {W.EXTMATCH | W.FORCEUNIX | W.PATHNAME | W.DOTMATCH | (W.GLOBSTAR if fl & G.G else 0)} 0 {common.enc(p)}' for p, fl, _q, _i, _s in hits])
+            for (p, fl, q, i, sg), so in zip(hits, sig):
+                kinds = so.split(' ')[1].split(',') if so.startswith('ok ') else []
+                kid = None
+                if i < len(kinds) and (kinds[i][:1] in ('G', 'I') and len(kinds[i]) > 1 and kinds[i][1] != 'L'):
+                    kid = 'KF-D5'          # a group that may match empty, then an unguarded wildcard (also matches ./.. under DOTGLOB)
+                sr.histogram[kid or 'unattributed'] = sr.histogram.get(kid or 'unattributed', 0) + 1
+                ck.report(Failing(f'globmatch accepts {q!r} for {p!r} under DOTGLOB: the piece {q.split("/")[i]!r} is matched by the segment {sg!r}, which has no written dot',
+                                  {'api': 'globmatch', 'pattern': p, 'path': q, 'name': q, 'flags': fl, 'item_kinds': kinds}, False, True,
+                                  'wcmatch/_wcparse.py: _NO_DIR guard / match_dot_dir'), kid)
+        sr.note = ('`.`/`..` pieces under DOTGLOB|EXTGLOB: globstar-free patterns of 1-3 segments x every path of as many pieces over {a,b,.,..,.a,ab}; '
+                   'a segment without any written dot must not match `.`/`..` (attribution to KF-D5 by item kinds: group then non-literal)')
+    ck.search('dotdir-under-dotglob', s_dotdir)
 
     # ---- real trees containing dot files / dot directories / dot-named links (added after seeded
     # change C03b: the walker descended a *hidden symlink* to a directory under `**` with FOLLOW)
